@@ -213,6 +213,11 @@ class ChunkLengthState(Contract):
     differential = False
     summaries = {"_hexint": hexint_summary}
     calls = {"bytes.translate": translate_model}
+    # path-feasibility queries over these string constraints that come back `unknown` are genuinely undecided by z3
+    # (not load): retrying them with a larger budget only costs time; such a path is kept, which is sound
+    feas_retry = False
+    feas_timeout = 1.0
+    inproc_budget = 0.5  # z3 in-process leaves these string obligations open; the command-line portfolio (cvc5) decides them
     inputs = dict(buf=Bytes(alphabet=b"1a;\r\n", small_len=3), start=Int(lo=0, small=[0, 1, 2]))
     trusted = ["bytes.find / bytes.translate library axioms", "_hexint through its proved contract (HexInt)"]
     timeout_quick = 60
@@ -282,7 +287,28 @@ class ChunkLengthState(Contract):
                 ("del self._buffer[0 : eolIndex + 2]", "del self._buffer[0 : eolIndex + 1]", "size_line_consumed")]
 
 
-CONTRACTS = [IsHexDigits, HexInt, ToChunk, BodyState, CrlfState, NoMoreData, ChunkLengthState]
+class ChunkLengthIncomplete(ChunkLengthState):
+    """the same contract restricted to buffers without a complete size line (the two halves run in parallel workers)"""
+
+    def requires(self, i):
+        return band(ChunkLengthState.requires(self, i), first_crlf(i.buf) < 0)
+
+    ensures = dict(incomplete_line_kept=ChunkLengthState._incomplete)
+    canaries = [("self._start = len(self._buffer) - 1", "self._start = len(self._buffer)", "incomplete_line_kept")]
+
+
+class ChunkLengthComplete(ChunkLengthState):
+    """... and to buffers that hold a complete size line"""
+
+    def requires(self, i):
+        return band(ChunkLengthState.requires(self, i), first_crlf(i.buf) >= 0)
+
+    ensures = dict(size_line_parsed=ChunkLengthState._parsed, size_line_consumed=ChunkLengthState._consumed,
+                   start_invariant_kept=ChunkLengthState._start_inv)
+    canaries = [("del self._buffer[0 : eolIndex + 2]", "del self._buffer[0 : eolIndex + 1]", "size_line_consumed")]
+
+
+CONTRACTS = [IsHexDigits, HexInt, ToChunk, BodyState, CrlfState, NoMoreData, ChunkLengthIncomplete, ChunkLengthComplete]
 BOUNDED = bounded("C22")
 NOTES = dict(
     explanation="Hex chunk-size parsing, chunk formatting and the BODY/CRLF decoder states proved; chunk-size line, "
